@@ -62,7 +62,9 @@ def run_matrix(solver, shard):
     k = -1
     for dname in DATAFITS:
         for pname in PENALTIES:
-            for sp in (False, True):
+            for sp in (False, True, 'array'):
+                if sp == 'array' and (pname != PENALTIES[0] or not hasattr(sps, 'csc_array')):
+                    continue        # the newer scipy container (csc_array): one representative penalty per datafit
                 for fi in (False, True):
                     k += 1
                     if k % shard[1] != shard[0]:
@@ -81,7 +83,7 @@ def run_matrix(solver, shard):
                         y = np.abs(y) + .1
                     elif kind == 'surv':
                         y = np.c_[np.abs(y) + .1, (rng.rand(n) < .7).astype(float)]
-                    Xin = sps.csc_matrix(X) if sp else np.asfortranarray(X)
+                    Xin = (sps.csc_array(X) if sp == 'array' else sps.csc_matrix(X)) if sp else np.asfortranarray(X)
                     kw = {}
                     cls = getattr(S, solver)
                     import inspect
@@ -97,7 +99,7 @@ def run_matrix(solver, shard):
                     if 'max_pn_iter' in sig:
                         kw['max_pn_iter'] = 5
                     cells += 1
-                    cell = f'{dname}+{pname}[{"csc" if sp else "dense"},fit_intercept={fi}]'
+                    cell = f'{dname}+{pname}[{("csc_array" if sp == "array" else "csc") if sp else "dense"},fit_intercept={fi}]'
                     try:
                         with warnings.catch_warnings():
                             warnings.simplefilter('ignore')
@@ -113,8 +115,16 @@ def run_matrix(solver, shard):
                         if not np.all(np.isfinite(np.asarray(w, dtype=float))) or not np.isfinite(float(stop)) and float(stop) != float('inf'):
                             bad.append((cell, f'non-finite output w={np.asarray(w).tolist()} stop={stop}'))
                     except (AttributeError, ValueError) as ex:
+                        # a designed refusal is RAISED BY skglm (validation layer, custom_checks, shape / domain checks) with a message;
+                        # the same exception types escaping from numpy / scipy internals are crashes, not refusals
+                        tb = ex.__traceback__
+                        while tb.tb_next is not None:
+                            tb = tb.tb_next
+                        origin = tb.tb_frame.f_code.co_filename
                         if not str(ex).strip():
                             bad.append((cell, f'{type(ex).__name__} without a message'))
+                        elif os.sep + 'skglm' + os.sep not in origin:
+                            bad.append((cell, f'{type(ex).__name__} raised inside {os.path.basename(origin)} (not by skglm): {str(ex)[:120]}'))
                     except Exception as ex:     # noqa
                         bad.append((cell, f'{type(ex).__name__}: {str(ex)[:160]}'))
     return dict(cells=cells, bad=bad)
